@@ -431,7 +431,7 @@ def memo_keys(ctx, rule, files):
         if ".<locals>." not in fi.qual:
             for node, attr_, par in memokey.attr_memo_param_omitted(effects.engine(ctx.program).fx(fi)):
                 ctx.fail(rule, fi, f"memo-slot-omits:{par}",
-                         f"{fi.qual}: the result is remembered in the single slot `self.{attr_}` (returned as is when already set), but what is stored depends on the parameter `{par}`: "
+                         f"{fi.qual}: the result is remembered in the single slot `{attr_}` (returned as is when already set), but what is stored depends on the parameter `{par}`: "
                          f"a later call with another `{par}` is served the first call's result", node=node)
             for node, cont, key, par in memokey.param_omitted(effects.engine(ctx.program).fx(fi)):
                 ctx.fail(rule, fi, f"memo-key-omits:{par}",
